@@ -744,11 +744,33 @@ func (m *Nitro) collectDead() {
 // GC implements manual garbage collection of Nitro snapshots.
 func (m *Nitro) GC() {
 	verifYield(vpGCTryLock, unsafe.Pointer(m))
-	if atomic.CompareAndSwapInt32(&m.isGCRunning, 0, 1) {
+	for atomic.CompareAndSwapInt32(&m.isGCRunning, 0, 1) {
 		m.collectDead()
 		verifYield(vpGCUnlock, unsafe.Pointer(m))
 		atomic.CompareAndSwapInt32(&m.isGCRunning, 1, 0)
+		// A Close that retired its snapshot while the flag was held found it
+		// taken and gave up; collect on its behalf instead of waiting for a
+		// later Close or an explicit GC.
+		if !m.hasCollectableSnapshot() {
+			break
+		}
 	}
+}
+
+// hasCollectableSnapshot reports whether the oldest retired snapshot is next in order
+func (m *Nitro) hasCollectableSnapshot() bool {
+	buf := m.gcsnapshots.MakeBuf()
+	defer m.gcsnapshots.FreeBuf(buf)
+
+	iter := m.gcsnapshots.NewIterator(CompareSnapshot, buf)
+	defer iter.Close()
+
+	iter.SeekFirst()
+	if !iter.Valid() {
+		return false
+	}
+	sn := (*Snapshot)(iter.Get())
+	return sn.sn == m.GetLastGCSn()+1
 }
 
 // GetSnapshots returns the list of current live snapshots
